@@ -96,14 +96,19 @@ func NewDecCoinsResponse(amount sdk.DecCoins) []DecCoin {
 
 // HexAddressFromBech32String converts a hex address to a bech32 encoded address.
 func HexAddressFromBech32String(addr string) (res common.Address, err error) {
-	if strings.Contains(addr, sdk.PrefixValidator) {
+	// bech32 strings are valid in all lower case and in all upper case
+	if strings.Contains(strings.ToLower(addr), sdk.PrefixValidator) {
 		valAddr, err := sdk.ValAddressFromBech32(addr)
 		if err != nil {
 			return res, err
 		}
 		return common.BytesToAddress(valAddr.Bytes()), nil
 	}
-	return common.BytesToAddress(sdk.MustAccAddressFromBech32(addr)), nil
+	accAddr, err := sdk.AccAddressFromBech32(addr)
+	if err != nil {
+		return res, err
+	}
+	return common.BytesToAddress(accAddr), nil
 }
 
 // SafeAdd adds two integers and returns a boolean if an overflow occurs to avoid panic.
